@@ -39,7 +39,8 @@ def main():
     ap.add_argument("--keep", action="store_true")
     ap.add_argument("--seeds", default="1")
     a = ap.parse_args()
-    checks = (a.checks or a.property).split(",")
+    checks = [] if a.checks == "none" else (a.checks or a.property).split(",")
+    a.seed_dir = os.path.abspath(a.seed_dir)
     patch = os.path.join(a.seed_dir, "patch.diff")
     demo = os.path.join(a.seed_dir, "demo.py")
     meta = {"name": a.name, "property": a.property, "checks_run": {}, "at": time.strftime("%Y-%m-%d %H:%M:%S")}
